@@ -39,6 +39,38 @@ CHECKS = {
             "Per sampled program the single-fault space is enumerated completely: for every operation of the fault-free device/pipe operation sequence of the writer program or of the read-everything reader session, and every flavour applicable to its kind (hard error, short-then-error, EINTR, write returning 0, disk full), the session is re-run with exactly that fault; the API call in progress must return Err (EINTR may be absorbed with identical result, Drop swallows), finalize Ok implies the fault-free image, flushed. Plus chunking mode: K transfer schedules must give byte-identical images and identical read results.",
             "Programs stop at the first failed call; EINTR only on transfers; errors in Drop are swallowed by design.",
             SIM + "exhaustive single-fault injection over the recorded device-operation sequence, plus schedule-independence under seeded short transfers", "DESIGN.md §5 C16"),
+    "C03": (True, "exploration",
+            "Seeded scenes encoded by an independent, specification-driven producer (refcodec) under a seeded layout schedule (ragged per-stream packetisation with values straddling packets and empty streams, index/ignored packets before/between/after data packets, shuffled and padded sections, omitted optional type attributes, XML lexical variants); the producer's output must pass refcodec's own fsck and decode to the scene; the crate's reader on a simulated device with seeded short reads must return exactly the encoded values, counts and metadata.",
+            "Legal layout space is conservative (choices supported by the format description and by libE57Format-written files). Known finding F13b (all-constant prototype) listed.",
+            SIM + "foreign-producer packetisation/interleaving schedule x device chunk schedules vs. scene model", "DESIGN.md §5 C03"),
+    "C05": (True, "exploration",
+            "Files from the writer and from the producer (all layouts), per cloud a subset (thorough: all 64) of the option vectors; raw and simple iteration on one reader over a simulated device, every third run with a damaged page; every simple point is compared with a reference view written from the documentation (tolerance on computed coordinates), counts and failure behaviour with the raw iterator.",
+            "Trusts the reference view; normalised values compared by presence only (C13 is n/a); direction-only conversions accept either documented reading.",
+            SIM + "producer layout schedule x 2^6 option configurations x page damage vs. reference view and raw iterator", "DESIGN.md §5 C05"),
+    "C07": (True, "fault_enumeration",
+            "Every single-bit flip of every page of small files is enumerated (4 files quick, 24 thorough) and judged with all read entry points; sampled 1-3 bit flips, bursts <= 32 bits, overwrites, checksum-only and header-field damage are applied before open or between two operations of a reader history; every operation must fail or equal the pristine result, validate_crc fails iff a page is altered; the whole batch is re-executed by a second harness build with the crc32c feature and per-run digests must agree.",
+            "Altered = independent bitwise CRC-32C of the payload differs from the stored checksum; header()/raw_xml on a damaged page 0 not judged.",
+            SIM + "stored-byte fault enumeration (all single-bit flips) and seeded alterations at seeded instants x reader histories x both CRC back ends", "DESIGN.md §5 C07"),
+    "C08": (True, "exploration",
+            "Structure-aware corruption plans (header, XML numbers/attributes/structure incl. NaN/inf/extremes/DTD, section and packet headers, stream lengths, payload bits; sealed or unsealed; stale/misdirected pages, truncation, extension), applied before open or between operations, drive every reading entry point in child processes built with overflow checks; a panic (catch_unwind), abort or hang of the child is attributed to the run in flight.",
+            "'All byte strings' is explored by mutation of valid files located with refcodec's map; sampling only.",
+            SIM + "seeded media/producer corruption at seeded instants x all entry points, panic/abort oracle in child processes", "DESIGN.md §5 C08"),
+    "C09": (True, "exploration",
+            "Same corruption runs as C08 plus size-targeted plans; every API call (each iterator step) is metered: device bytes read, device operations (full-transfer schedules), peak allocation and allocation calls against budgets linear in the stored file size; iterators must not yield more than recordCount; 1 GiB allocation ceiling and 20 s watchdog as backstops.",
+            "Budget constants separate linear from unbounded, they are not performance bounds; pure CPU loops are caught only by the watchdog.",
+            SIM + "seeded corruption x step/allocation/yield budgets measured by the simulated device and a counting allocator", "DESIGN.md §5 C09"),
+    "C10": (True, "exploration",
+            "Seeded writer programs with injected calls that a scene model classifies as must-reject / must-accept / unspecified (tri-state), abandoned sub-writers, failing transformers; no call may panic, must-reject calls must return Err, and whenever all calls succeeded the image passes refcodec's fsck, decodes to exactly the accepted content and reads back through the crate's reader.",
+            "Trusts the tri-state model of the documented rules; bounds not compared. Known finding F10 listed.",
+            SIM + "seeded API-call programs incl. invalid calls and abandoned sub-writers vs. accept/reject model and read-back", "DESIGN.md §5 C10"),
+    "C19": (True, "exploration",
+            "read -> write -> read -> write -> read pipelines over simulated disks (sources: 19 bundled files, writer-made and producer-made files), every stage under its own chunk schedule, every write executed twice: copies must equal the original in content, the copy of the copy must equal the copy in content and bytes, double writes must be byte-identical.",
+            "Compared is what the writer API can express (see evidence assumptions).",
+            SIM + "multi-stage copy pipelines over three simulated disks with independent chunk schedules; byte-determinism across schedules", "DESIGN.md §5 C19"),
+    "C20": (True, "exploration",
+            "Tool processes built from the workspace run in a private /dev/shm directory: XYZ -> e57-from-xyz -> [stored-byte fault] -> e57-check-crc / e57-to-xyz, and generator-made E57 files (intact or damaged) -> e57-check-crc / e57-extract-xml / e57-unpack; outputs compared with the inputs and with the library's own results.",
+            "Weakest fit of the technique: only the stored bytes between process stages are under the simulator's control; GUIDs from uuid are outside the observed outputs.",
+            SIM + "process-level pipelines with seeded inputs and stored-byte faults between stages", "DESIGN.md §5 C20"),
     "C17": (True, "exploration",
             "Seeded histories of 2-12 read operations (early-terminated iterators, blobs into chunked sinks) on one open reader over writer-made files, optionally with static damage (unsealed pages / resealed section headers) and up to three transient device faults placed inside operations; every operation is compared with the same operation on a freshly opened reader over the same bytes.",
             "Fresh-reader oracle; errors compared as is-Err; iterators driven to first Err/None.",
